@@ -306,7 +306,7 @@ class Interp:
                     finally:
                         self.self_obj = saved
                 raise ShapeError(f'stand-in {base.kind} has no method `{f.attr}`')
-            if isinstance(base, str) and f.attr in ('startswith', 'endswith', 'lstrip', 'rstrip', 'strip', 'lower', 'upper', 'removeprefix', 'removesuffix', 'join', 'split', 'replace'):
+            if isinstance(base, str) and f.attr in ('startswith', 'endswith', 'lstrip', 'rstrip', 'strip', 'lower', 'upper', 'removeprefix', 'removesuffix', 'join', 'split', 'replace', 'encode', 'format'):
                 return getattr(base, f.attr)(*args, **kwargs)
             if isinstance(base, (list, dict, set, tuple)) and f.attr in ('append', 'extend', 'get', 'items', 'keys', 'values', 'add', 'copy', 'index', 'count', 'pop', 'discard', 'remove', 'update', 'setdefault'):
                 return getattr(base, f.attr)(*args, **kwargs)
